@@ -645,6 +645,13 @@ static bool segsCase(const vh::Args &a, long k, int argc, char **argv) {
             Sh s = {x0, y0, x0 + w, y0 + h};
             shapes.push_back(s);
         }
+        if (sub == 0 && r.coin(1, 4)) {
+            // a shape nested in shape 0 along x with the same y-range (overlapping obstacles: the sweep orders scan-line
+            // nodes by their MID coordinate, Props/C10Segs.sweep_orders_by_mid_witness)
+            Sh s = shapes[0];
+            s.x0 += (double) r.range(2, 6); s.x1 -= (double) r.range(3, 8);
+            if (s.x1 - s.x0 >= 4) shapes.push_back(s);
+        }
         withPins = r.coin(1, 3);
         withJunction = r.coin(1, 3);
         if (withJunction) {
@@ -700,6 +707,17 @@ static bool segsCase(const vh::Args &a, long k, int argc, char **argv) {
                 }
             }
             cps.push_back(cp);
+        }
+        if (sub == 0 && r.coin(1, 3)) {
+            // a straight connector from inside shape 0 to a free point on the same line (display route of two points with ONE
+            // end in a shape: final segment, endsInShape, not singleConnectedSegment)
+            const Sh &s0 = shapes[0];
+            Pt2 s = {(s0.x0 + s0.x1) / 2, s0.y0 + (double) r.range(1, (long) (s0.y1 - s0.y0) - 1)};
+            Pt2 t = {r.coin() ? s0.x0 - (double) r.range(20, 60) : s0.x1 + (double) r.range(20, 60), s.y};
+            if (r.coin()) std::swap(s, t);
+            ends.push_back(std::make_pair(s, t));
+            srcKind.push_back(0); dstKind.push_back(0); srcObj.push_back(0); dstObj.push_back(0);
+            cps.push_back(std::vector<Pt2>());
         }
     }
     int m = (int) ends.size();
@@ -837,7 +855,7 @@ int main(int argc, char **argv) {
     long nse = (thorough ? 3000 : 500) * a.scale;          // fifth family, after the fourth
     long nfan = (thorough ? 2500 : 400) * a.scale;         // sixth family, after the fifth
     long ntw = (thorough ? 3000 : 500) * a.scale;          // seventh family, after the sixth
-    long nsg = (thorough ? 12000 : 2000) * a.scale;        // eighth family, after the seventh
+    long nsg = (thorough ? 8000 : 2000) * a.scale;        // eighth family, after the seventh
     for (long k = from; k < ncases + nmid + ntie + nzc + nse + nfan + ntw + nsg; ++k) {
         if (!a.want(k)) continue;
         if (k >= ncases + nmid + ntie + nzc + nse + nfan + ntw) {
